@@ -79,6 +79,7 @@ struct Facts {
     disconnected: bool,
     multi_edge: bool,
     dijkstra_choice: bool,
+    one_directional: bool,
     queries: u64,
 }
 
@@ -254,6 +255,37 @@ fn check_inner(g: &Graph, facts: &mut Facts) -> Result<u64, String> {
             return Err(format!("{desc}: after removing only the edge {} -> {} the view still reports bidirectional()", victim.2, victim.3));
         }
     }
+    // ---- filter_edges: one-directional views (only edges towards higher / lower module index)
+    for keep_up in [true, false] {
+        facts.queries += 1;
+        let idx = |p: &str| NAMES.iter().position(|x| *x == p).unwrap();
+        let mut t = sim.globals().topology();
+        t.filter_edges(|e| {
+            let (a, b) = (idx(e.from.module().path().as_str()), idx(e.to.module().path().as_str()));
+            a == b || ((a < b) == keep_up)
+        });
+        let kept: Vec<&E> = edges_ref.iter().filter(|e| e.0 == e.1 || ((e.0 < e.1) == keep_up)).collect();
+        let (_, fes, fcnt, _) = collect(&t);
+        let exp: ESet = kept.iter().map(|e| (NAMES[e.0].to_string(), NAMES[e.1].to_string(), e.2.clone(), e.3.clone())).collect();
+        if fes != exp || fcnt != exp.len() {
+            return Err(format!("{desc}: filter_edges keeping only edges towards {} module indices gives {fes:?}, expected {exp:?}", if keep_up { "higher" } else { "lower" }));
+        }
+        let mut dadj = vec![vec![]; n];
+        for e in &kept {
+            dadj[e.0].push(e.1);
+        }
+        let dconn = (0..n).all(|s| bfs(n, &dadj, s).iter().all(Option::is_some));
+        if t.connected() != dconn {
+            return Err(format!("{desc}: one-directional view (edges towards {} indices only): connected() = {}, reference {dconn}", if keep_up { "higher" } else { "lower" }, t.connected()));
+        }
+        let has_cross = kept.iter().any(|e| e.0 != e.1);
+        if has_cross {
+            facts.one_directional = true;
+            if t.bidirectional() {
+                return Err(format!("{desc}: one-directional view (edges towards {} indices only) reports bidirectional()", if keep_up { "higher" } else { "lower" }));
+            }
+        }
+    }
     Ok(vcheck::fp(&(es, n)))
 }
 
@@ -268,7 +300,7 @@ impl Property for C19 {
     fn rule(&self, tier: Tier) -> String {
         format!(
             "every multigraph on 1..={} modules (names s, a, ab, c, d) with 0..=2 parallel gate chains per module pair (0..=1 from {} modules on) and optional self chains, x first chain routed directly / through one transit gate on each module / through 15 transit gates (16 hops); \
-             per graph: global view, connected, bidirectional, spanned(root) for every root, dijkstra(src) for every source, filter_nodes for every subset (+ connected on the result), filter_edges removing every single directed edge (+ bidirectional on simple graphs); \
+             per graph: global view, connected, bidirectional, spanned(root) for every root, dijkstra(src) for every source, filter_nodes for every subset (+ connected on the result), filter_edges removing every single directed edge (+ bidirectional on simple graphs) and keeping only the edges towards higher / lower module indices (+ connected and bidirectional on the one-directional view); \
              oracle: reference adjacency list from the declared wiring, BFS distances; non-trivial = graph with a transit-routed chain, parallel chains, or a root with more than one neighbour",
             tier.pick(4, 5),
             tier.pick(4, 5)
@@ -278,7 +310,7 @@ impl Property for C19 {
         vec!["chains longer than the supported 16 hops and channels on hops (irrelevant to topology extraction) are outside the alphabet".into()]
     }
     fn required_features(&self, _tier: Tier) -> Vec<&'static str> {
-        vec!["root_with_several_frontier_modules", "chain_through_transit_gates", "disconnected_graph", "parallel_chains", "dijkstra_with_alternative_first_hops"]
+        vec!["root_with_several_frontier_modules", "chain_through_transit_gates", "disconnected_graph", "parallel_chains", "dijkstra_with_alternative_first_hops", "one_directional_view"]
     }
     fn explore(&self, ctx: &mut Ctx) {
         let maxn = ctx.tier.pick(4, 5);
@@ -333,6 +365,9 @@ impl Property for C19 {
                     }
                     if f.dijkstra_choice {
                         ctx.hit("dijkstra_with_alternative_first_hops");
+                    }
+                    if f.one_directional {
+                        ctx.hit("one_directional_view");
                     }
                     if f.multi_frontier || f.has_transit || f.multi_edge {
                         ctx.out.nontrivial += 1;
